@@ -559,6 +559,19 @@ impl Ind {
     pub fn reset(&mut self) {
         each!(self, i => i.reset())
     }
+    /// `self.clone_from(source)` on the inner indicator types (same kind required); falls back to
+    /// replacing self by a clone when the kinds differ
+    pub fn clone_from_same(&mut self, src: &Ind) {
+        macro_rules! cf {
+            ($($v:ident),*) => {
+                match (&mut *self, src) {
+                    $( (Ind::$v(a), Ind::$v(b)) => a.clone_from(b), )*
+                    _ => *self = src.clone(),
+                }
+            };
+        }
+        cf!(Sma, Ema, Wma, Sd, Mad, Rsi, Min, Max, FastStoch, SlowStoch, Tr, Atr, Macd, Ppo, Cci, Er, Bb, Ce, Kc, Roc, Mfi, Obv);
+    }
     pub fn display(&self) -> String {
         each!(self, i => format!("{}", i))
     }
